@@ -9,3 +9,6 @@ open IrVerif.Device
 #print axioms C19_checks_precede_writes
 #print axioms C19_serializable
 #print axioms C19_roundtrip_faithful
+#print axioms C19_name_frame
+#print axioms C19_names_current
+#print axioms C19_roundtrip_legacy
